@@ -136,6 +136,8 @@ pub fn panic_catcher_set_hook() {
         return;
     }
     let next = std::panic::take_hook();
+    #[cfg(feature = "verif-hooks")]
+    crate::verif::race_window();
     std::panic::set_hook(Box::new(move |info| {
         if PANIC_CATCHER_LEVEL.with(|enabled| enabled.get() > 0) {
             PANIC_CATCHER_BACKTRACE.with(|bt| {
